@@ -132,6 +132,7 @@ func runC02(c *Ctx) {
 	t := c.Scen
 	ns := NewNodeSim(c)
 	ns.S.PreemptDen = uint32(pickFrom(t, 0, 2, 3, 4, 8))
+	maybeStalls(c, ns.S, 2, 10, 50)
 	r := &c02run{c: c, ns: ns, ann: map[int]bitcoin.Hash32{}, top: -1}
 	// tree: an initial chain and a few branches
 	pre := pickFrom(t, 0, 1, 3, 6)
